@@ -15,10 +15,11 @@ open Irismod Irismod.Service Irismod.Props.C08
 #print axioms total_reached_removed
 #print axioms paused_left_alone
 #print axioms callback_once_per_completion
-#print axioms no_batch_beyond_total_fails
-#print axioms start_queues_regardless_of_total
-#print axioms due_entry_processed_fails
-#print axioms due_entry_processed_partial
+#print axioms due_entry_processed
+#print axioms new_phase_leaves_no_due_entry
+#print axioms below_total_run
+#print axioms no_batch_beyond_total
+#print axioms start_respects_total
 #print axioms no_reactivation
 #print axioms active_issued_in_past
 #print axioms answered_is_final
